@@ -24,6 +24,16 @@ def roots_of(I, rng, maxroots):
         if ok and (k, b, v) not in seen and k < I.nvars:
             seen.add((k, b, v)); roots.append((k, b, v, path))
         if len(roots) >= maxroots: break
+    if rng.chance(1, 3):
+        # a COMPLETE assignment as root (depth = nb_vars): the compilation has nothing to branch on; only reachable through the
+        # public API (the solvers never hand out such a sub-problem), but "any exact sub-problem" includes it
+        k, b, v, path = 0, I.init, I.initval, []
+        while k < I.nvars:
+            rows = I.rows(I.order[k], b)
+            if not rows: break
+            (val, d, c) = rng.choice(rows)
+            path = path + [(I.order[k], val)]; v += c; b = d; k += 1
+        if k == I.nvars and I.nvars > 0: roots.append((k, b, v, path))
     return roots
 
 
@@ -434,20 +444,23 @@ PINNED = {   # theorem names pinned per property (files Props/Cxx.v and, where i
             "C07_best_exact_value_is_a_lower_bound", "C07_holds_on_table_family", "C07_holds_on_table_family_exact_mode", "C07_example_strict_gap"],
     "C08": ["C08_cutset_nodes_are_exact", "C08_cutset_upper_bounds_are_valid", "C08_cutset_covers_the_optimum", "C08_cutset_nodes_are_strictly_deeper",
             "C08_cutset_is_bounded", "C08_holds_on_table_family_bounds", "C08_holds_on_table_family_cover", "C08_example_cover"],
-    "C12": ["C12_callback_protocol", "C12_relax_only_on_genuine_arcs", "C12_next_variable_depths"],
+    "C12": ["C12_callback_protocol", "C12_relax_only_on_genuine_arcs", "C12_next_variable_depths",
+            "C12_callbacks_only_on_states_of_the_layer", "C12_log_starts_with_next_variable", "C12_example_merged_state_is_expanded",
+            "C12_checker_rejects_foreign_state"],
     "C20": ["C20_as_graphviz_total", "C20_layers_never_empty"],
     "C13": ["C13_restricted_width", "C13_relaxed_width_clean", "C13_times_debug_nonzero", "C13_times_release_nonzero",
-            "C13_times_release_stays_usize", "C13_divby_nonzero"],
+            "C13_times_release_stays_usize", "C13_divby_nonzero",
+            "C13_relaxed_width_pooled", "C13_exempting_two_layers_is_necessary", "C13_all_impacted_premise_is_necessary", "C13_example_pooled"],
 }
-PROPFILES = {"C06": "C06+C06u", "C07": "C07+C07u", "C08": "C08+C08u"}
-LEVEL = {"C06": "proof", "C07": "proof", "C08": "proof"}
+PROPFILES = {"C06": "C06+C06u", "C07": "C07+C07u", "C08": "C08+C08u", "C12": "C12+C12u", "C13": "C13+C13u"}
+LEVEL = {"C06": "proof", "C07": "proof", "C08": "proof", "C12": "proof", "C13": "proof"}
 OPEN = {
     "C06": ["pooled flavour, and compilations with a cache / dominance rule: correspondence + oracle only",
             "histories of one diagram object: the model compiles from a cleared diagram (the implementation side of the correspondence re-uses one object)"],
     "C07": ["pooled flavour, and compilations with a cache / dominance rule: correspondence + oracle only"],
     "C08": ["pooled flavour: correspondence + oracle only ((ii) is false there: finding D1)"],
-    "C12": ["clause `for_each_in_domain only for states of that layer` (the expanded list may contain the freshly merged state)"],
-    "C13": ["relaxed width bound for the pooled flavour (needs the every-state-impacted hypothesis)"],
+    "C12": [],
+    "C13": [],
     "C20": ["C20_wellformed / C20_faithful as theorems about the string printer (validated by string equality + DOT reader)"],
 }
 
